@@ -74,6 +74,11 @@ def expand_structural(n, mf, has_fork, fork_k, has_foreign):
     return m
 
 
+def _killed_from_outside(payload):
+    st = payload.get("wait_status") if isinstance(payload, dict) else None
+    return isinstance(st, int) and os.WIFSIGNALED(st) and os.WTERMSIG(st) == 9
+
+
 class FilesetEngine:
     name = "fileset"
     rule = {
@@ -503,9 +508,12 @@ class FilesetEngine:
         if status == "ok":
             return payload
         if status == "died":
+            if _killed_from_outside(payload):
+                raise env.HarnessError("open probe was killed from outside (SIGKILL)")
             return {"status": "hard-death"}
         if status == "timeout":
-            return {"status": "timeout"}
+            # 60 s for opening a few small files: the host is starved, not the code slow
+            raise env.HarnessError("open probe timed out")
         raise env.HarnessError(str(payload))
 
     # ---------------------------------------------------------------- execution
